@@ -668,6 +668,13 @@ impl<'a> Printer<'a> {
                     for (i, l) in lines.iter().enumerate() {
                         if i > 0 {
                             self.out.push('\n');
+                            // a line with the marker but without text (blank, or only a comment) adds nothing
+                            if !self.plain && self.tape.chance(1, 6) {
+                                self.f.comments += 1;
+                                let l = [">", "> ", "> -- nothing here", "> [- c -]", ">\t", "> [- a -] [- b -] "][self.tape.pick(6) as usize];
+                                self.out.push_str(l);
+                                self.out.push('\n');
+                            }
                         }
                         let marker = i == 0 || self.plain || !self.tape.chance(1, 3);
                         if marker {
